@@ -220,6 +220,18 @@ def structural_peers(source: str) -> dict[str, list[str]]:
 			elif isinstance(child, (ast.FunctionDef, ast.AsyncFunctionDef)):
 				if outer is not None and isinstance(node, ast.ClassDef):
 					out.setdefault(child.name, []).append(outer)
+				# a function / method is tied to the (last element of the) name of its return type: `build() -> Widget` ~ `Widget_build`
+				ret = child.returns
+				if isinstance(ret, ast.Constant) and isinstance(ret.value, str):
+					rname = ret.value.split('.')[-1]
+				elif isinstance(ret, ast.Name):
+					rname = ret.id
+				elif isinstance(ret, ast.Attribute):
+					rname = ret.attr
+				else:
+					rname = ''
+				if IDENT_RE.fullmatch(rname or '-') and rname != 'None':
+					out.setdefault(child.name, []).append(rname)
 				visit(child, None)
 			else:
 				visit(child, outer)
@@ -302,7 +314,7 @@ SEEDS = ['ab', 'abc', 'abcd', 'a_b', 'a__b', 'ab_', 'ab__', 'q', 'w', 'zz', 'val
 	'quite_a_long_identifier_that_goes_on_and_on_for_a_while_x', 'quite_a_long_identifier_that_goes_on_and_on_for_a_while_xy']
 CLASS_SEEDS = ['Ab', 'Abc', 'Abcd', 'A_b', 'A__b', 'Q', 'Qq', 'Node', 'Nodes', 'NodeX', 'Box', 'Boxed', 'Unit', 'Units', 'Shape', 'Shapes',
 	'Item', 'ItemZ', 'Acc', 'Accum', 'Kind', 'Kinds', 'Tree', 'Trees', 'Left', 'LeftMost', 'Cell', 'Cells', 'Cell_', 'Cell__2']
-RESERVED_STEMS = ['self', 'cls', 'super', 'init', '__init__', 'len', 'print', 'int', 'str', 'list', 'dict', 'range', 'enumerate', 'type', 'object',
+RESERVED_STEMS = ['self', 'cls', 'super', 'init', '__init__', 'len', 'print', 'int', 'float', 'bool', 'str', 'list', 'dict', 'range', 'enumerate', 'type', 'object',
 	'None', 'Enum', 'lambda', 'class', 'def', 'new', 'delete', 'this', 'std', 'auto', 'template', 'operator', 'Empty', 'Unknown', 'if', 'for',
 	'func_call', 'function', 'closure', 'method', 'block', 'var', 'name', 'items', 'keys', 'values', 'append', 'pop', 'get', 'copy', 'raw', 'on', 'ref', 'addr']
 
@@ -394,9 +406,9 @@ def make_renaming(rng: random.Random, domain: dict[str, str], all_identifiers: s
 		return {}
 	k = how_many if how_many is not None else rng.choice([1, 1, 2, 3, len(names), len(names), max(1, len(names) // 2)])
 	if related:
-		tied = [n for n in names if domain[n] in ('nested-class', 'enum-member') and (ties or {}).get(n)]
+		tied = [n for n in names if domain[n] in ('nested-class', 'enum-member', 'function', 'method') and (ties or {}).get(n)]
 		structural = [n for n in names if domain[n] in ('nested-class', 'enum-member', 'class', 'method')]
-		groups = [g for g in ([n for n in tied if domain[n] == 'nested-class'], [n for n in tied if domain[n] == 'enum-member']) if g]
+		groups = [g for g in ([n for n in tied if domain[n] == 'nested-class'], [n for n in tied if domain[n] == 'enum-member'], [n for n in tied if domain[n] in ('function', 'method')]) if g]
 		pick_from = rng.choice(groups) if groups and rng.random() < 0.7 else (structural if structural and rng.random() < 0.8 else names)
 		chosen = rng.sample(pick_from, min(k, len(pick_from)))
 	else:
@@ -676,6 +688,18 @@ class NestGen:
 		for _ in range(r.randint(1, 2 + self.size)):
 			k = r.random()
 			if k < 0.3:
+				callable_funcs = [f for f in self.funcs if f.ret in ('int', 'float', 'bool') or self.class_by_name(f.ret) is not None]
+				if callable_funcs and r.random() < 0.3:
+					# a declaration whose whole right-hand side is ONE call of a module-level function (inferred or annotated type)
+					f = r.choice(callable_funcs)
+					name = self.names.var(scope_names)
+					local_pool.append(name)
+					call = f"{f.name}({', '.join(self.expr(t, env, 2, me) for _, t in f.params)})"
+					out.append(f'{pad}{name} = {call}' if r.random() < 0.6 else f'{pad}{name}: {f.ret} = {call}')
+					env.append((name, f.ret))
+					declared_here.add(name)
+					self.count('stmt:declare-from-function-call')
+					continue
 				inners = [c.inner.qual for c in self.classes if c.inner is not None]
 				ty = r.choice(TYPES + ['list[int]'] + [c.qual for c in self.classes][:2] + inners * 2)
 				# reuse a name of the function's pool when it is not visible here (sibling scopes), else a new one
@@ -801,7 +825,7 @@ class NestGen:
 				scope_names.add(mv[0])
 				params.append(mv)
 				self.count('param-shadows-module-var')
-		ret = r.choice(TYPES + ['None'] + [c.qual for c in self.classes][:1]) if kind != 'property' else r.choice(TYPES)
+		ret = r.choice(TYPES + ['None'] + [c.qual for c in self.classes][:2] * 2) if kind != 'property' else r.choice(TYPES)
 		sig = FuncSig(name, params, ret, owner, kind)
 		ind = 1 if owner else 0
 		pad = '\t' * ind
@@ -962,10 +986,24 @@ class NestGen:
 			self.module_vars.append((n, ty))
 			self.count('decl:module-var')
 		lines.append('')
+		if r.random() < 0.7:
+			# a module-level function returning int, available to every body below
+			fname, pn = self.names.gvar(), self.names.var(set())
+			self.funcs.append(FuncSig(fname, [(pn, 'int')], 'int'))
+			lines += [f'def {fname}({pn}: int) -> int:', f'\treturn {pn} + {r.randint(1, 9)}', '']
+			self.count('decl:int-function')
 		for i in range(r.randint(1, 1 + self.size)):
 			base = r.choice(self.classes) if self.classes and r.random() < 0.5 else None
-			_, clines = self.gen_class(base)
+			cls, clines = self.gen_class(base)
 			lines += clines
+			if r.random() < 0.7:
+				# a factory: module-level function whose return type is the class
+				fname = self.names.gvar()
+				fn_names: set[str] = set()
+				params = [(self.names.var(fn_names), t) for _, t in cls.ctor_params]
+				self.funcs.append(FuncSig(fname, params, cls.qual))
+				lines += [f"def {fname}({', '.join(f'{n}: {t}' for n, t in params)}) -> {cls.qual}:", f"\treturn {cls.qual}({', '.join(n for n, _ in params)})", '']
+				self.count('decl:factory-function')
 		for _ in range(r.randint(1, 1 + self.size)):
 			sig, flines = self.gen_function()
 			self.funcs.append(sig)
